@@ -12,6 +12,7 @@ import Driver.CastsEng
 import Driver.TypingEng
 import Driver.StructEng
 import Driver.SnapEng
+import Driver.ThrEng
 /-! `rlbox_model_driver`: one operation per line on stdin, one result per line on stdout. -/
 open Driver
 
@@ -24,7 +25,7 @@ def firstSome (fs : List (List String → Option String)) (t : List String) : Op
 
 def stepLine (s : St) (line : String) : St × String :=
   let t := toks line
-  match firstSome [Conv.step, PtrEng.step, RangeEng.step, IndexEng.step, MemEng.step, OpsEng.step, CallsEng.step, InvokeEng.step, CastsEng.step, TypingEng.step, StructEng.step, SnapEng.step] t with
+  match firstSome [Conv.step, PtrEng.step, RangeEng.step, IndexEng.step, MemEng.step, OpsEng.step, CallsEng.step, InvokeEng.step, CastsEng.step, TypingEng.step, StructEng.step, SnapEng.step, ThrEng.step'] t with
   | some r => (s, r)
   | none =>
   match TokEng.step s.tok t with
